@@ -364,7 +364,7 @@ func (x *Exec) freshResults(st *State, sig *types.Signature, hint string) []Val 
 // ---- hooks ----
 
 func hookMatches(pattern, name string) bool {
-	if pattern == name {
+	if pattern == name || pattern == "*" {
 		return true
 	}
 	if strings.HasSuffix(name, pattern) {
